@@ -31,6 +31,7 @@ func init() {
 		},
 		Real:       append(append([]string{}, realAll...), "db/fs (compiled against the simulated os)", "db/postgres", "asm (assembling the examples)"),
 		Stub:       append(append([]string{}, stubAll...), "OS filesystem (simfs)", "Postgres server (pgfake)"),
+		HangIsViolation: true, // the property promises that requests are served
 		FaultKinds: []string{"restart", "ext_error", "ext_oversize", "client_garbage", "client_browse_oob", "first_func_error"},
 	})
 }
